@@ -10,6 +10,8 @@ E1 (bounded exhaustive enumeration against mc/ref_c10.py, the definitions on poi
            deleting one point}, from a table built over S_{n+1}), remove / remove_element for
            every index / value and their defaults, remove-then-insert; every list-returning
            operation is called a second time after the first result was emptied by the caller.
+  duality  every q: q is in coveredby(c) for each child c of q and in children(r) for each r in
+           coveredby(q) (implementation against itself).
   insert   every (p, index, value) with 0 <= index <= n+1, 0 <= value <= n, defaults included;
            remove(index) and remove_element(value) undo it.
   shift    every p x every a (and every pair (a, b)) in a symmetric range: the four shifts against
@@ -251,16 +253,17 @@ def unary_observations(Perm, p, cover, full=True):
 def check_unary(part, Perm, p, cover, after=None, full=True):
     case0 = {"perm": p, "after": after}
     bad = 0
-    for sub, op, thunk, exp in unary_observations(Perm, p, cover, full):
+    obs = unary_observations(Perm, p, cover, full)
+    for sub, op, thunk, exp in obs:
         case = dict(case0, op=op)
         if not observe(part, sub, case, thunk, exp):
             bad += 1
+    part.bump("unary_observations", len(obs))
     return bad
 
 
 def unary_nontrivial(p):
-    """has a proper interval of length >= 2 but is not monotone (so the interval scans have both
-    hits and misses), or is simple of length >= 4."""
+    """length >= 3 and not monotone (the interval / bond scans then have both hits and misses)."""
     n = len(p)
     if n < 3:
         return 0
@@ -292,6 +295,36 @@ def shard_unary(shard):
         part.sample({"sub": "unary", "perm": q, "sum_decomposition": X.sum_decomposition(q),
                      "blocks": X.block_table(q), "monotone_runs": X.monotone_runs(q, (1, -1), True),
                      "children": sorted(X.children(q))}, cap=1)
+    return part
+
+
+# --------------------------------------------------------------------------------------------
+# duality of children and coveredby, on the implementation alone
+# --------------------------------------------------------------------------------------------
+
+def check_duality(part, Perm, q):
+    """q in c.coveredby() for every child c of q, and q in r.children() for every r covering q."""
+    C = Conv(Perm)
+    Q = Perm(q)
+    case = {"perm": q, "op": "q in c.coveredby() for c in q.children()"}
+
+    def down():
+        return sorted(C.p(c) for c in Q.children() if Q not in set(c.coveredby()))
+    observe(part, "duality", case, down, [])
+    case = {"perm": q, "op": "q in r.children() for r in q.coveredby()"}
+
+    def up():
+        return sorted(C.p(r) for r in Q.coveredby() if Q not in set(r.children()))
+    observe(part, "duality", case, up, [])
+
+
+def shard_duality(shard):
+    n, lo, hi = shard
+    Perm = _P()
+    part = Partial()
+    for q in level_slice(n, lo, hi):
+        check_duality(part, Perm, q)
+        part.add(2, 2 if n >= 2 else 0)
     return part
 
 
@@ -587,8 +620,8 @@ def run(ctx, only=None):
 
     quick = ctx.quick
     Perm = _P()
-    ctx.rule = ("unary: permutations of length >= 3 that are not monotone; insert: 0 < index < n and "
-                "0 < value < n; shift: law instances with n >= 3 and neither amount = 0 mod n; "
+    ctx.rule = ("unary: permutations of length >= 3 that are not monotone; duality: length >= 2; "
+                "insert: 0 < index < n and 0 < value < n; shift: law instances with n >= 3 and neither amount = 0 mod n; "
                 "compose: neither factor nor the product is the identity (triples: p and q, r not "
                 "the identity); sums: at least two components of length >= 2; inflate: n >= 2, a "
                 "component of length >= 2 and a component that is None or empty.  Every case is "
@@ -631,6 +664,16 @@ def run(ctx, only=None):
             "second_call_perm_length": "0..%d" % FRESH_MAX}
         ctx.section("unary", perms=ctx.evals - e0)
 
+    # ---- duality ---------------------------------------------------------------------------
+    if want("duality"):
+        nmax = 6 if quick else 7
+        per = {0: 1, 1: 1, 2: 2, 3: 6, 4: 6, 5: 8, 6: 15, 7: 63}
+        e0 = ctx.evals
+        ctx.pmap(shard_duality, [(n, lo, hi) for n in range(0, nmax + 1)
+                                 for lo, hi in chunks(n, per[n])])
+        ctx.bounds["duality"] = "every q of length 0..%d against all its children and all its covers" % nmax
+        ctx.section("duality", cases=ctx.evals - e0)
+
     # ---- insert ------------------------------------------------------------------------------
     if want("insert"):
         nmax = 6 if quick else 8
@@ -668,11 +711,13 @@ def run(ctx, only=None):
     # ---- sums ------------------------------------------------------------------------------------
     if want("sums"):
         if quick:
-            plans = [[upto(4), upto(4)], [upto(3), upto(3), upto(3)], [upto(2)] * 4]
-            desc = "pairs over S<=4, triples over S<=3, quadruples over S<=2"
+            plans = [[upto(4)], [upto(4), upto(4)], [upto(3), upto(3), upto(3)], [upto(2)] * 4]
+            desc = "single components and pairs over S<=4, triples over S<=3, quadruples over S<=2"
         else:
-            plans = [[upto(5), upto(5)], [upto(4), upto(4), upto(4)], [upto(3)] * 4, [upto(2)] * 5]
-            desc = "pairs over S<=5, triples over S<=4, quadruples over S<=3, quintuples over S<=2"
+            plans = [[upto(5)], [upto(5), upto(5)], [upto(4), upto(4), upto(4)], [upto(3)] * 4,
+                     [upto(2)] * 5]
+            desc = ("single components and pairs over S<=5, triples over S<=4, quadruples over S<=3, "
+                    "quintuples over S<=2")
         shards = []
         for pools in plans:
             step = max(1, len(pools[0]) // 16)
@@ -725,6 +770,8 @@ def replay(ctx, rec):
             # the input handled immediately before in the exploration (state carried over)
             check_unary(Collect(), Perm, after, None, after=None)
         check_unary(sink, Perm, p, cover, after=after)
+    elif sub == "duality":
+        check_duality(sink, Perm, _tt(case["perm"]))
     elif sub == "insert":
         check_insert(sink, Perm, _tt(case["perm"]))
     elif sub == "shift":
